@@ -74,7 +74,7 @@ Step(e) ==
         fz == IF f0 = -1 THEN e.free + SumLen(m) ELSE f0
         items == (IF a[3] # "" THEN <<[diag |-> a[3], opname |-> e.op]>> ELSE <<>>)
                  \o (IF e.op = "ins" /\ e.res = "ok" /\ (~e.idok \/ e.idlen # e.len)
-                     THEN <<[diag |-> "heap-id-malformed", opname |-> e.op]>> ELSE <<>>)
+                     THEN <<[diag |-> "heap-id-malformed", opname |-> e.op, indirect |-> e.indirect, len |-> e.len, idlen |-> e.idlen]>> ELSE <<>>)
                  \* a refused insert changes nothing: in particular it does not restructure the heap
                  \o (IF e.op = "ins" /\ e.res = "err" /\ Has(e, "indbefore") /\ ~e.indbefore /\ e.indirect
                      THEN <<[diag |-> "refused-insert-restructured-the-heap", opname |-> e.op, len |-> e.len]>> ELSE <<>>)
